@@ -68,8 +68,11 @@ TrTamper == IsEvent("Tamper") /\ LET e == Trace[l] IN Tamper(e.r, e.kind, e.othe
 TrAddBatchTail == IsEvent("AddBatchTail") /\ LET e == Trace[l] IN
                      AddBatchTail(e.r, e.i, e.j, e.kind, e.other, e.a, Cs(e)) /\ Saw(e.r, e)
 
+TrBuildTampered == IsEvent("BuildTampered") /\ LET e == Trace[l] IN
+                      BuildTampered(e.r, e.k, e.m, e.kind, e.other, e.a, Cs(e)) /\ Saw(e.r, e)
+
 TraceNext == TrConfig \/ TrAccept \/ TrRefused \/ TrAddOne \/ TrAddBatch \/ TrRestart \/ TrMigrated
-             \/ TrBootstrap \/ TrCatchUp \/ TrAnnounce \/ TrTamper \/ TrAddBatchTail
+             \/ TrBootstrap \/ TrCatchUp \/ TrAnnounce \/ TrTamper \/ TrAddBatchTail \/ TrBuildTampered
 TraceSpec == TraceInit /\ [][TraceNext]_tvars
 
 \* the invariants of the design evaluated on what the real lists showed
